@@ -920,10 +920,12 @@ def fix_inline(rng, img) -> None:
         img["extras"] = IL.random_extras(rng)
     if img["kind"].startswith("jpeg"):
         img["filters"] = ["A85", "DCT"] if "A85" in img["filters"] else (["AHx", "DCT"] if rng.random() < 0.5 else ["DCT"])
+    if (img.get("filters") or [""])[0] == "A85" and rng.random() < 0.6:
+        img["a85_wrap"] = rng.choice([1, 2, 3, 4, 5, 16])
     for _ in range(50):
         payload = IL.encode_image(img, None)
         first = (img.get("filters") or [""])[0]
-        a85_marker = first == "A85" and IL.filter_key_short(img)      # do_keyword looks at /F only
+        a85_marker = first == "A85"      # do_keyword looks at /F and /Filter (round 6 fix; before: /F only)
         target = b"~>" if a85_marker else b"EI"
         body = payload[:-2] if a85_marker else payload
         if not IL.has_marker(body + bytes.fromhex(img["sep"]), target) and not \
